@@ -164,6 +164,8 @@ type tScreen struct {
 	cursorColor  Color
 	cursorRGB    string
 	cursorFg     string
+	cursorShaped bool // a non-default cursor shape has been sent to the terminal
+	cursorTinted bool // a cursor color has been sent to the terminal
 	saved        *term.State
 	stopQ        chan struct{}
 	eventQ       chan Event
@@ -984,14 +986,17 @@ func (t *tScreen) showCursor() {
 	if t.cursorStyles != nil {
 		if esc, ok := t.cursorStyles[t.cursorStyle]; ok {
 			t.TPuts(esc)
+			t.cursorShaped = t.cursorStyle != CursorStyleDefault
 		}
 	}
 	if t.cursorRGB != "" {
 		if t.cursorColor == ColorReset {
 			t.TPuts(t.cursorFg)
+			t.cursorTinted = false
 		} else if t.cursorColor.Valid() {
 			r, g, b := t.cursorColor.RGB()
 			t.TPuts(t.ti.TParm(t.cursorRGB, int(r), int(g), int(b)))
+			t.cursorTinted = true
 		}
 	}
 	t.cx = x
@@ -2100,11 +2105,15 @@ func (t *tScreen) disengage() {
 	ti := t.ti
 	t.cells.Resize(0, 0)
 	t.TPuts(ti.ShowCursor)
-	if t.cursorStyles != nil && t.cursorStyle != CursorStyleDefault {
+	// undo what was last sent to the terminal, which need not be what
+	// the application requests now
+	if t.cursorStyles != nil && t.cursorShaped {
 		t.TPuts(t.cursorStyles[CursorStyleDefault])
+		t.cursorShaped = false
 	}
-	if t.cursorFg != "" && t.cursorColor.Valid() {
+	if t.cursorFg != "" && t.cursorTinted {
 		t.TPuts(t.cursorFg)
+		t.cursorTinted = false
 	}
 	t.TPuts(ti.ResetFgBg)
 	t.TPuts(ti.AttrOff)
